@@ -210,3 +210,80 @@ def feature_spec(draw, max_blocks=4, max_len=10, strand=None, start_min=0, start
     if qualifiers:
         sp["qualifiers"] = draw(simple_qualifiers())
     return sp
+
+
+@st.composite
+def gene_spec(draw, max_tx=3, same_strand=True, region=None, coding=None, **txkw):
+    """1..max_tx transcripts sharing a locus (region = [lo, hi] start window for the exons)"""
+    n = draw(st.integers(1, max_tx))
+    strand = draw(st.sampled_from(["+", "-"]))
+    lo = region[0] if region else 0
+    txs = []
+    for i in range(n):
+        s = strand if same_strand or draw(st.integers(0, 2)) else draw(st.sampled_from(["+", "-"]))
+        txs.append(draw(transcript_spec(strand=s, start_min=lo, coding=coding, **txkw)))
+    # a gene must not hold two identical transcripts nor more than one primary flag (documented preconditions)
+    seen_primary = False
+    for i, t in enumerate(txs):
+        t["transcript_id"] = "tx%d%s" % (i, t.get("transcript_id") or "")
+        if t.get("is_primary_tx"):
+            if seen_primary:
+                t["is_primary_tx"] = None
+            seen_primary = True
+    g = {"transcripts": txs,
+         "gene_id": draw(st.one_of(st.none(), IDENT)), "gene_symbol": draw(st.one_of(st.none(), IDENT)),
+         "gene_type": draw(st.sampled_from(["protein_coding", "ncRNA", "pseudogene", "lncRNA", None] if coding is None else (CODING_BIOTYPES if coding else NONCODING_BIOTYPES))),
+         "locus_tag": draw(st.one_of(st.none(), IDENT)), "qualifiers": draw(simple_qualifiers(2))}
+    return g
+
+
+@st.composite
+def feature_collection_spec(draw, max_feat=3, region=None, **fkw):
+    n = draw(st.integers(1, max_feat))
+    lo = region[0] if region else 0
+    feats = [draw(feature_spec(start_min=lo, **fkw)) for _ in range(n)]
+    seen_primary = False
+    for i, f in enumerate(feats):
+        f["feature_id"] = "f%d%s" % (i, f.get("feature_id") or "")
+        if f.get("is_primary_feature"):
+            if seen_primary:
+                f["is_primary_feature"] = None
+            seen_primary = True
+    return {"features": feats, "feature_collection_name": draw(st.one_of(st.none(), IDENT)),
+            "feature_collection_id": draw(st.one_of(st.none(), IDENT)), "feature_collection_type": draw(st.one_of(st.none(), st.sampled_from(["tfbs", "repeat_region"]))),
+            "locus_tag": draw(st.one_of(st.none(), IDENT)), "qualifiers": draw(simple_qualifiers(2))}
+
+
+@st.composite
+def variant_specs(draw, lo, hi, max_n=3, kinds=("snv", "ins", "del", "del_unpadded", "mnv")):
+    """1..max_n non-overlapping variants inside [lo, hi); each {start,end,sequence,variant_type}"""
+    n = draw(st.integers(1, max_n))
+    out = []
+    cur = lo
+    for _ in range(n):
+        if cur >= hi - 1:
+            break
+        s = draw(st.integers(cur, min(hi - 1, cur + 8)))
+        kind = draw(st.sampled_from(kinds))
+        if kind == "snv":
+            e, alt, vt = s + 1, draw(st.sampled_from("ACGT")), "SNV"
+        elif kind == "mnv":
+            L = draw(st.integers(2, 3))
+            e = min(hi, s + L)
+            alt, vt = "".join(draw(st.lists(st.sampled_from("ACGT"), min_size=e - s, max_size=e - s))), "MNV"
+        elif kind == "ins":
+            e = s + 1
+            alt, vt = "".join(draw(st.lists(st.sampled_from("ACGT"), min_size=2, max_size=4))), "insertion"
+        elif kind == "del":
+            e = min(hi, s + draw(st.integers(2, 4)))
+            if e - s < 2:
+                continue
+            alt, vt = draw(st.sampled_from("ACGT")), "deletion"
+        else:
+            e = min(hi, s + draw(st.integers(1, 3)))
+            alt, vt = "", "deletion"
+        out.append({"start": s, "end": e, "sequence": alt, "variant_type": vt})
+        cur = e + draw(st.integers(0, 3))
+    if not out:
+        out.append({"start": lo, "end": lo + 1, "sequence": "A", "variant_type": "SNV"})
+    return out
